@@ -1,4 +1,5 @@
-import Firefly.Proof.VmmCow
+import Firefly.Proof.VmmZeroSeq
+import Firefly.Proof.VmmBoot
 import Firefly.Gen.C06
 /-!
 # C06 — Copy-on-write faults get a private copy; the shared zero frame is never writable
@@ -40,16 +41,9 @@ theorem zero_guard (st : St) (hp : st.protect = true) :
   ⟨fun page flags h => mapOp_guard st page flags hp h, mapTemporary_guard st hp,
     fun n page flags h => mapLoop_guard st n page flags hp h⟩
 
-/-- Full statement of `zero_never_rw`: over every history of `Map`, `MapTemporary`,
-`PageDirectoryTable.Map`, `MapRegion`, `IdentityMapRegion` and faults after initialisation, no page
-of any address space translates to the zero frame with RW.
-
-**Proved here (`_partial`)**: one step of that invariant for `Map` on a page whose upper levels
-exist — every word of memory the call changes is an entry that is *not* a writable mapping of the
-zero frame (the call changes one word, to `frame<<12 | flags`, and the guard excludes
-`frame = zeroFrame ∧ RW`).  New levels and the induction over histories: correspondence + the
-oracle clause `zero-never-rw`, evaluated after every operation on every address space. -/
-theorem zero_never_rw_partial {st : St} {R T1 T2 T3 : W} (page frame flags : W) (hw : Window st R)
+/-- word-level form for `Map` on a page whose upper levels exist: every word of memory the call changes
+is an entry that is not a writable mapping of the zero frame (general case: `zero_never_rw`). -/
+theorem zero_guard_one_word {st : St} {R T1 T2 T3 : W} (page frame flags : W) (hw : Window st R)
     (p : Path st.mem R (pageAddr page) T1 T2 T3) (hp : st.protect = true) (st' : St)
     (h : mapOp st page frame flags = .ok (0, st')) :
     ∀ F j, st'.mem.rd F j ≠ st.mem.rd F j →
@@ -68,6 +62,53 @@ theorem zero_never_rw_partial {st : St} {R T1 T2 T3 : W} (page frame flags : W) 
   · simp only [hl, and_self, if_true]; exact ⟨trivial, hnz⟩
   · simp only [hl, if_false] at hne; exact absurd rfl hne
 
+/-- **zero_never_rw — over whole histories.**  `ZInv st R own`: the active address space is well formed,
+the guard is armed, and no page translates to the zero frame with the RW bit.  For every history of
+`Map`, page loops of `MapRegion`/`IdentityMapRegion` (`maps`), `Unmap`, `MapTemporary` and page
+faults (frames < 2^40, flags outside the frame field, pages outside the recursive slot) that runs to
+completion, the invariant holds again at the end — in particular no page maps the zero frame
+writable, whatever the order of requests, the allocator's behaviour and the entries present. -/
+theorem zero_never_rw {R : W} (ops : List KOp) (st : St) (own : Own) (z : ZInv st R own) (hd : ∀ op ∈ ops, op.dom)
+    (st' : St) (h : runKs st ops = .ok st') : ∃ own', ZInv st' R own' :=
+  ZInv.history ops st own z hd st' h
+
+/-- the same for `PageDirectoryTable.Map` on an address space that is not active: its pages never map
+the zero frame writable either, and the active address space keeps all its entries. -/
+theorem zero_never_rw_inactive {st : St} {A P : W} {ownA ownP : Own} (d : Dual st A P ownA ownP)
+    (page frame flags : W) (hu : UserVA (pageAddr page)) (hfo : FrameOK frame) (hfl : FlagsOK flags)
+    (harm : st.protect = true) (hzf : FrameOK st.zeroFrame)
+    (hinv : ∀ va', UserVA va' → ∀ e, hwEntry st.mem (P <<< 12) va' = some e →
+      ¬(e &&& hwMask = st.zeroFrame <<< 12 ∧ e &&& fRW ≠ 0#64)) :
+    ∃ code st' ownP', pdtMap st P page frame flags = .ok (code, st') ∧ Dual st' A P ownA ownP' ∧
+      st'.protect = true ∧ st'.zeroFrame = st.zeroFrame ∧
+      (∀ va', UserVA va' → ∀ e, hwEntry st'.mem (P <<< 12) va' = some e →
+        ¬(e &&& hwMask = st'.zeroFrame <<< 12 ∧ e &&& fRW ≠ 0#64)) ∧
+      (∀ va', UserVA va' → hwEntry st'.mem (A <<< 12) va' = hwEntry st.mem (A <<< 12) va') :=
+  pdtMap_keeps_zero_ro d page frame flags hu hfo hfl harm hzf hinv
+
+/-- **shared_zero_sequence.**  Any number of pages whose entries point to the shared all-zero frame
+`zf` (RAM outside tables and allocator), faulted in any order, every fault returning: each page gets
+its own frame `cp a` from the allocator, all of whose words are zero; distinct pages get distinct
+frames; each page's entry is its old entry with CoW cleared, Present|RW set and the new frame; the
+shared frame is still all-zero and still outside tables and allocator (`ZSeq` again); pages that were
+not faulted (other than the temporary page) keep their entries. -/
+theorem shared_zero_sequence {R : W} {zf : Nat} (addrs : List W) (st : St) (own : Own) (z : ZSeq st R own zf)
+    (hd : ∀ a ∈ addrs, UserVA (pg a) ∧ ¬SamePage (pg a) tempVA ∧
+      ∃ e, hwEntry st.mem R (pg a) = some e ∧ frameN (e &&& hwMask) = zf)
+    (hpw : addrs.Pairwise (fun a b => ¬SamePage (pg a) (pg b)))
+    (st' : St) (h : runFaults st addrs = .ok st') :
+    ∃ (own' : Own) (cp : W → W), ZSeq st' R own' zf ∧
+      (∀ a ∈ addrs, cp a ∈ st.free ∧ cp a ∉ st'.free ∧
+        (∀ i, st'.mem.rd (cp a).toNat i = 0#64) ∧
+        ∃ e, hwEntry st.mem R (pg a) = some e ∧ hwEntry st'.mem R (pg a) = some (cowEntry e (cp a))) ∧
+      (∀ a ∈ addrs, ∀ b ∈ addrs, ¬SamePage (pg a) (pg b) → (cp a).toNat ≠ (cp b).toNat) ∧
+      (∀ va', UserVA va' → (∀ a ∈ addrs, ¬SamePage va' (pg a)) → ¬SamePage va' tempVA →
+        hwEntry st'.mem R va' = hwEntry st.mem R va') := by
+  obtain ⟨own', cp, z', _, _, _, hcp, hdist, _, has⟩ := Firefly.Vmm.shared_zero_sequence addrs st own z hd hpw st' h
+  refine ⟨own', cp, z', fun a ha => ?_, hdist, has⟩
+  obtain ⟨c1, c2, _, c4, c5⟩ := hcp a ha
+  exact ⟨c1, c2, c4, c5⟩
+
 /-- **Every other page fault panics.** If the handler returns at all, the walk found a leaf entry
 that is present, read-only and copy-on-write, a frame was available and the temporary mapping was
 not refused; contrapositive: any other entry state (missing at any level, writable, not CoW), an
@@ -79,22 +120,14 @@ theorem otherwise_panics (st : St) (addr : W) (st' : St) (h : pageFault st addr 
       hasFlags (st.rdLoc loc) fCoW = true ∧ st.free ≠ [] ∧ st.tmpFail = false :=
   pageFault_ok_inv st addr st' h
 
-/-- Full statement of `cow_private_copy`: leaf present ∧ ¬RW ∧ CoW and all upper levels present ⇒ the
-handler returns, the page maps a frame taken from the allocator at that moment with flags
-old − CoW + RW, the new frame's contents equal the old frame's, every other frame and every other
-mapping is unchanged (the temporary page ends unmapped), the page is flushed.
-
-**Proved here (`_partial`)** under the additional hypothesis that the tables of the temporary-mapping
-page already exist (they do after the first `MapTemporary`, e.g. after `PageDirectoryTable.Init` in
-`vmm.Init`), for every state, address, entry flags and frame contents: the handler returns; the
+/-- The recovered fault word by word, when the tables of the temporary-mapping page already exist
+(the general case is `cow_private_copy`), for every state, address, entry flags and frame contents: the handler returns; the
 allocator's frame `copy` is consumed; `copy` holds exactly the old frame's 512 words; the leaf entry
 becomes `cowEntry e copy` (= `e` with CoW cleared, Present|RW set, frame field `copy`); the old
 (shared) frame's contents are untouched; every word of memory other than frame `copy`, the page's
 leaf entry and the temporary page's leaf entry is unchanged, and the temporary page's entry is left
-non-present; flushes: temporary page (map), temporary page (unmap), the faulting page.  The case in
-which the temporary mapping must first create table levels is covered by the correspondence run and
-the oracle clauses `cow-*`. -/
-theorem cow_private_copy_partial {st : St} {R T1 T2 T3 U1 U2 U3 : W} (addr : W)
+non-present; flushes: temporary page (map), temporary page (unmap), the faulting page. -/
+theorem cow_present_exact {st : St} {R T1 T2 T3 U1 U2 U3 : W} (addr : W)
     (hA : st.cr3 &&& hwMask = R) (hw : Window st R)
     (pf : Path st.mem R (pageAddr (pageOf addr)) T1 T2 T3)
     (pt : Path st.mem R tempVA U1 U2 U3)
@@ -150,10 +183,49 @@ theorem cow_private_copy_partial {st : St} {R T1 T2 T3 U1 U2 U3 : W} (addr : W)
     have : ~~~1#64 &&& 1#64 = 0#64 := by decide
     rw [this]; simp
 
+/-- **cow_private_copy — the copy-on-write fault, every case.**  Well-formed active address space
+(`Good`, CR3 = its root); the faulting page (outside the recursive slot, not the temporary page) has a
+present, read-only, copy-on-write entry `e`; the allocator's next frame is `copy`; the temporary
+mapping is not refused (`tmpFail`, zero-frame guard).  Then — whether or not the temporary page's
+tables exist yet — the handler either panics because the allocator ran out while creating those
+tables, or returns, and then (`CowPost`): the page's entry is `e − CoW + Present|RW` with frame
+`copy`, the temporary page is unmapped, *every other page's entry is unchanged*; if the page's old
+frame is RAM outside the tables and the allocator, `copy` holds exactly its 512 words and the old
+(shared) frame is untouched; memory outside the page tables and `copy` is untouched; flushes are
+temp, temp, page; the address space is well formed again. -/
+theorem cow_private_copy {st : St} {R : W} {own : Own} (g : Good st R own) (hA : st.cr3 &&& hwMask = R) (addr : W)
+    (hu : UserVA (pageAddr (pageOf addr))) (hnt : ¬SamePage (pageAddr (pageOf addr)) tempVA)
+    {e : W} (he : hwEntry st.mem R (pageAddr (pageOf addr)) = some e)
+    (hrw : hasFlags e fRW = false) (hcow : hasFlags e fCoW = true)
+    {copy : W} {rest : List W} (hf : st.free = copy :: rest) (htf : st.tmpFail = false)
+    (hz : (st.protect && copy == st.zeroFrame) = false) :
+    pageFault st addr = .error (.panic (200 + eAlloc)) ∨
+    ∃ st' own', pageFault st addr = .ok ((), st') ∧
+      CowPost st st' R own own' (pageAddr (pageOf addr)) e copy rest :=
+  pageFault_full g hA addr hu hnt he hrw hcow hf htf hz
+
 /-- the general-protection-fault handler always panics -/
 theorem gpf_panics (st : St) : ∃ c, gpFault st = .error (.panic c) := ⟨_, gpFault_panics st⟩
 
-/-! non-vacuity: a state with the guard armed; a recoverable fault that returns -/
+/-! non-vacuity: the armed boot state satisfies the invariant `ZInv` (and `ZSeq` for zero frame 6);
+a state with the guard armed; a recoverable fault that returns -/
+
+/-- boot state after `reserveZeroedFrame`: guard armed, zero frame = frame 6 -/
+def zbootSt : St := { bootSt with protect := true, zeroFrame := 6#64 }
+
+private theorem zboot_good : Good zbootSt 0x1000#64 bootOwn :=
+  ⟨⟨boot_good.win.top, boot_good.win.self⟩, boot_good.owned, boot_good.act, boot_good.free, boot_good.nodup⟩
+
+example : ZInv zbootSt 0x1000#64 bootOwn :=
+  ⟨zboot_good, by decide, rfl, by unfold FrameOK; decide,
+    fun va' hu' e he => by rw [show zbootSt.mem = bootSt.mem from rfl, boot_empty va' hu'] at he; cases he⟩
+
+example : ZSeq zbootSt 0x1000#64 bootOwn 6 :=
+  ⟨zboot_good, by decide, by decide, by simp [bootOwn], by
+    intro f hf
+    simp only [zbootSt, bootSt, List.mem_cons, List.not_mem_nil, or_false] at hf
+    rcases hf with rfl | rfl | rfl | rfl <;> decide,
+   fun i => by simp [zbootSt, bootSt, Mem.rd, rdLog]⟩
 
 /-- root 1 (511→1, 0→2, 510→6); 2[0]→3, 3[0]→4, 4[0] = frame 5 Present|CoW; 6[511]→7, 7[511]→8;
 frame 5 holds data; the allocator will hand out frame 9 -/
